@@ -42,7 +42,14 @@ func famOp(fam int, composite bool, tag string) func() {
 				mod.Map[int, int](map[int]int{1: v})
 			}
 		case 1:
-			return func() { l.AppendValue(v); l.InsertValue(0, v); l.RemoveValue(1); s.AddValue(v); c.SetValue(2, v); c.RemoveValue(1) }
+			return func() {
+				l.AppendValue(v)
+				l.InsertValue(0, v)
+				l.RemoveValue(1)
+				s.AddValue(v)
+				c.SetValue(2, v)
+				c.RemoveValue(1)
+			}
 		case 2:
 			return func() { l.GetIndex(v); l.ContainsValue(v); s.ContainsValue(v); s.GetIndex(v) }
 		case 3:
